@@ -1,6 +1,6 @@
 SPECIFICATION Spec
 CONSTANTS
-  Ctors = {"par", "opt", "fn", "fnarg", "unionl", "unionr", "interl", "arr", "gen", "field"}
+  Ctors = {"par", "opt", "fn", "fnarg", "unionl", "unionr", "interl", "arr", "gen", "field", "leadu", "leadi"}
   MaxDepth = 4
   Positions = {"local", "decl", "param", "cast"}
 INVARIANT Emit
